@@ -36,6 +36,47 @@ def dammit(data, carrier, mode):
             return "EXC:" + type(e).__name__, None
 
 
+def long_documents(ctx):
+    """Whole documents holding every smart-quote byte several times (more than any small constant), through both ways
+    of naming the carrier encoding, and after an unrelated earlier call that used override_encodings: every byte of the
+    document must be converted, and an earlier call must not change what a later one does."""
+    with warnings.catch_warnings():
+        warnings.simplefilter("ignore")
+        try:
+            UnicodeDammit(b"caf\xe9", override_encodings=["latin-1"])     # an unrelated earlier call
+        except Exception:
+            pass
+    body = b"".join(b"<p>" + bytes([b]) + b"-x</p>" for b in range(0x80, 0xa0)) * 2
+    cmds, rows = [], []
+    for carrier in CARRIERS:
+        for mode in MODES:
+            for route in ("known_definite_encodings", "user_encodings"):
+                with warnings.catch_warnings():
+                    warnings.simplefilter("ignore")
+                    try:
+                        d = UnicodeDammit(body, smart_quotes_to=mode, **{route: [carrier]})
+                        got, enc = d.unicode_markup, d.original_encoding
+                    except Exception as e:
+                        got, enc = "EXC:" + type(e).__name__, None
+                case = {"document": "every byte 0x80-0x9f twice, in <p> elements", "mode": mode, "carrier": carrier, "carrier_given_as": route}
+                ctx.case(("sq-long", carrier, mode, route))
+                if enc != carrier:
+                    ctx.fail(case, "the carrier encoding named by the caller was not used", enc, carrier, tag="long-document")
+                    continue
+                cmds.append([190, MODE_ID[mode], carrier, body])
+                rows.append((case, got))
+    if ctx.build.model_ok and cmds:
+        for (case, got), mv in zip(rows, ctx.model.run(cmds)):
+            try:
+                mt = bytes(mv).decode(case["carrier"])
+            except UnicodeDecodeError:
+                continue
+            if mt != got:
+                ctx.fail(case, "not every smart-quote byte of a long document was converted as a single one is "
+                               "(compared with the model's byte-by-byte conversion, which the sweep theorem is about)",
+                         got[:120] if isinstance(got, str) else got, mt[:120], tag="long-document")
+
+
 def smart_quotes(ctx):
     cmds, cases = [], []
     for carrier, spelled in [(c, c) for c in CARRIERS] + [(c, v) for c in CARRIERS for v in (c.upper(), c.title())]:
@@ -190,6 +231,7 @@ def detwingle(ctx):
 
 
 def run(ctx):
+    long_documents(ctx)
     smart_quotes(ctx)
     detwingle(ctx)
     ctx.extra_cov["exhaustive"] = True
